@@ -211,6 +211,18 @@ func enumLarge(tier string, emit func(Case) bool) bool {
 			}
 		}
 	}
+	// GOMAXPROCS changing WHILE the calls run (another goroutine flips it between 2 and 7)
+	for i, n := range bands {
+		if tier == "thorough" || i < 3 {
+			k++
+			d := []int{7, 3, 40}[k%3]
+			c := bigCase(largeSlice(n+1+k%2, d, k), d, []int{d + 1, 2}[k%2], k/2, 4*k)
+			c.Procs, c.Flip = 0, true
+			if !emit(c) {
+				return false
+			}
+		}
+	}
 	// huge unused capacity (poisoned, compared after every call)
 	for i, spare := range []int{1<<17 + 1, 1 << 18, 1<<20 + 3} {
 		for _, d := range []int{0, 1, 9, 70} {
@@ -319,7 +331,7 @@ var specBig = pbt.Register(&pbt.Spec[Case]{
 		"Then lengths 2^14-1, 2^14, 2^14+1, 2^15-1, 2^15, 2^15+1, 2^16-1, 2^16, 2^16+1, 2^17+1 (thorough: also 2^17-1, 2^18+1, 3*2^15, 5*2^14+1, four cases each) with 3, 7, 40 or 300 (thorough: also 2, 1025, 4097) distinct values " +
 		"arranged pseudo-randomly, periodically, in ascending blocks (new values keep appearing up to the end), in descending blocks with a new value at the very end, or all equal but one, " +
 		"each of these under another GOMAXPROCS (1, 2, 3, 5, 6, 7, 4, 16 or the default); then every GOMAXPROCS in {1, 2, 3, 5, 6, 7} against a length of 2^14+1.., 2^15+1.. and 2^16+1..(+0..2) with 3, 5 or 7 distinct values " +
-		"(thorough: {1, 2, 3, 4, 5, 6, 7, 16} against every length); " +
+		"(thorough: {1, 2, 3, 4, 5, 6, 7, 16} against every length); then the same lengths (+1..2) once more while another goroutine flips GOMAXPROCS between 2 and 7 every 500 microseconds; " +
 		"and slices of 0, 2, 18 and 140 elements with 2^17+1 (thorough: also 2^18, 2^20+3) elements of poisoned unused capacity. One case in eight (every large one) runs under " +
 		"runtime.GOMAXPROCS(1, 2, 3, 5, 6 or 7; large ones also 4 and 16) instead of the box's 16. " +
 		"rapid: p drawn from 8..256, d in p-2..1.5p, n in d+1..2d+8 random values below d with an ascending prefix of random length, m in {d+1, d/2+1, random}, same transforms. " + sliceRule,
